@@ -74,7 +74,7 @@ func (s *linState) canon() string {
 		}
 		var ws []string
 		for wk, v := range ss.Watch {
-			ws = append(ws, fmt.Sprintf("%d/%q:%v", wk.db, wk.key, s.m.ver[wk] != v))
+			ws = append(ws, fmt.Sprintf("%d/%q:%v:%v", wk.db, wk.key, s.m.ver[wk] != v, s.m.abaTolerant && ss.WatchMiss[wk]))
 		}
 		sort.Strings(ws)
 		sb.WriteString(strings.Join(ws, ","))
